@@ -46,3 +46,123 @@ def Rulers.configure (m : Rulers) (p : Gen.Preset) : Rulers × Except PyErr Unit
 def findPreset (name : String) : Option Gen.Preset := Gen.presets.find? (·.name == name)
 
 end MdIt
+
+namespace MdIt
+
+/-! ## Options: one backing dict behind the three access routes (`utils.OptionsDict`) -/
+
+inductive OptVal where
+  | none
+  | b (v : Bool)
+  | n (v : Int)
+  | s (v : String)
+  | l (v : List String)
+deriving Repr, DecidableEq
+
+/-- Python dict with insertion order: assignment to an existing key keeps its position -/
+def dictSet {β} (d : List (String × β)) (k : String) (v : β) : List (String × β) :=
+  if d.any (·.1 == k) then d.map (fun p => if p.1 == k then (k, v) else p) else d ++ [(k, v)]
+
+def dictGet {β} (d : List (String × β)) (k : String) : Option β :=
+  (d.find? (·.1 == k)).map (·.2)
+
+/-- the three public routes of setting an option -/
+inductive Route where
+  | ctor      -- `MarkdownIt(preset, options_update={k: v})`  (merged into the dict given to OptionsDict)
+  | item      -- `md.options[k] = v`
+  | attr      -- `md.options.k = v`      (property setter: `self._options[k] = v`)
+deriving Repr, DecidableEq
+
+structure Inst where
+  rulers : Rulers
+  options : List (String × OptVal)
+  renderRules : List (String × Nat)      -- `renderer.rules`: token type ↦ function identity
+deriving Repr
+
+/-- every route performs the same dictionary assignment -/
+def Inst.setOpt (i : Inst) (_ : Route) (k : String) (v : OptVal) : Inst :=
+  { i with options := dictSet i.options k v }
+
+def Inst.addRenderRule (i : Inst) (name : String) (fn : Nat) : Inst :=
+  { i with renderRules := dictSet i.renderRules name fn }
+
+/-! ## What a parse/render does to the instance (C14)
+
+As far as the *instance* is concerned a parse or render is a sequence of events: requests for a
+compiled chain on one of the four rulers, and invocations of user-supplied callbacks (plugin rules,
+render rules, highlight).  Everything else lives in per-call state objects.  A fault plan says which
+invocation of which callback raises. -/
+
+inductive Which where | core | block | inline | inline2
+deriving Repr, DecidableEq
+
+inductive Ev where
+  | getRules (w : Which) (chain : String)
+  | call (slot : Nat)
+deriving Repr
+
+def Rulers.get (m : Rulers) : Which → Ruler
+  | .core => m.core | .block => m.block | .inline => m.inline | .inline2 => m.inline2
+
+def Rulers.set (m : Rulers) (w : Which) (r : Ruler) : Rulers :=
+  match w with
+  | .core => { m with core := r } | .block => { m with block := r }
+  | .inline => { m with inline := r } | .inline2 => { m with inline2 := r }
+
+/-- `plan slot i = some e`: the i-th invocation (from 0) of callback `slot` raises exception `e` -/
+abbrev Plan := Nat → Nat → Option Nat
+
+/-- run the events of one parse/render; `seen` counts invocations per slot -/
+def runEvents (plan : Plan) : Inst → List Ev → List (Nat × Nat) → Inst × Except PyErr Unit
+  | i, [], _ => (i, .ok ())
+  | i, .getRules w c :: rest, seen =>
+    let (r', _) := (i.rulers.get w).getRules c
+    runEvents plan { i with rulers := i.rulers.set w r' } rest seen
+  | i, .call slot :: rest, seen =>
+    let k := (dictGetN seen slot)
+    match plan slot k with
+    | some e => (i, .error (.userRaised e))
+    | none => runEvents plan i rest (bump seen slot)
+where
+  dictGetN (seen : List (Nat × Nat)) (slot : Nat) : Nat :=
+    match seen.find? (·.1 == slot) with | some p => p.2 | none => 0
+  bump (seen : List (Nat × Nat)) (slot : Nat) : List (Nat × Nat) :=
+    if seen.any (·.1 == slot) then seen.map (fun p => if p.1 == slot then (p.1, p.2 + 1) else p)
+    else seen ++ [(slot, 1)]
+
+/-! ## `MarkdownIt.reset_rules` — snapshot, body, restore on every exit path -/
+
+/-- a `with md.reset_rules():` body: anything that transforms the rulers and may raise -/
+abbrev Body := Rulers → Rulers × Except PyErr Unit
+
+/-- `try: yield  finally: restore`.  If the restore itself raises, that exception replaces the
+    body's (Python semantics of `finally`). -/
+def resetRules (m : Rulers) (body : Body) : Rulers × Except PyErr Unit :=
+  let snap := m.active
+  let (m1, r) := body m
+  let (m2, r2) := m1.restore snap
+  match r2 with
+  | .error e => (m2, .error e)
+  | .ok _ => (m2, r)
+
+/-- sequencing of two bodies: the second runs only if the first did not raise -/
+def Body.seq (f g : Body) : Body := fun m =>
+  match f m with
+  | (m1, .ok _) => g m1
+  | (m1, .error e) => (m1, .error e)
+
+/-- a body that raises a user exception -/
+def Body.raise (e : Nat) : Body := fun m => (m, .error (.userRaised e))
+
+/-- ruler operation on one of the four rulers, as a body -/
+def Body.rop (w : Which) (op : ROp) : Body := fun m =>
+  let (r', o) := (m.get w).step op
+  (m.set w r', match o with | .err e => .error e | _ => .ok ())
+
+/-- façade enable/disable as a body -/
+def Body.setMany (b : Bool) (names : List String) (ign : Bool) : Body := fun m => m.setMany b names ign
+
+/-- nested `with md.reset_rules():` -/
+def Body.reset (inner : Body) : Body := fun m => resetRules m inner
+
+end MdIt
